@@ -19,7 +19,7 @@ DumpDK == "skip_none=True,skip_validation=False"
 
 O(id, m, p, kw, tag, items, sub, sitems, pre, sel, dumpf, late, ser) ==
   [id |-> id, m |-> m, p |-> p, eoe |-> (p = "B"), kw |-> kw, tag |-> tag, stag |-> tag, items |-> items, sub |-> sub, sitems |-> sitems,
-   pre |-> pre, sel |-> sel, dumpf |-> dumpf, late |-> late, ser |-> ser, dkv |-> DumpDK, spec |-> "none"]
+   pre |-> pre, sel |-> sel, dumpf |-> dumpf, late |-> late, ser |-> ser, dkv |-> DumpDK, spec |-> "none", file |-> "-"]
 PA(id, p, kw, items, sub, sitems) ==      \* parse_args; tag: coarse code of the argv (one code: finer codes only multiply Alg-level states; the traces use the real argv text)
   O(id, "parse_args", p, kw, "r", items, sub, sitems, "ok", sub, "none", "ok", FALSE)
 PO(id, m, p, pre, sel, dumpf, late) == O(id, m, p, "-", "-", << >>, "none", << >>, pre, sel, dumpf, late, FALSE)
@@ -28,8 +28,15 @@ PO(id, m, p, pre, sel, dumpf, late) == O(id, m, p, "-", "-", << >>, "none", << >
 \* the default class, by a fresh A)
 SP(id, m, p, spec) == [PO(id, m, p, IF spec = "short" THEN "fail" ELSE "ok", "none", "none", "ok") EXCEPT !.spec = spec]
 NP(id, m, p, pre, ser) == O(id, m, p, "-", "-", << >>, "none", << >>, pre, "none", "none", "ok", ser)
+\* a step of the environment: the default config file of parser p is written (v1), edited (v2) or removed (absent)
+EV(p, f) == [NP(p \o ":file=" \o f, "environment", p, "ok", FALSE) EXCEPT !.file = f]
 
 QuickOps == {
+  NP("A:format_help",     "format_help", "A", "ok", FALSE),
+  NP("B:format_help",     "format_help", "B", "ok", FALSE),
+  PA("B:help",            "B", DefKW, <<"help">>, "none", << >>),
+  PA("B:[]",              "B", DefKW, << >>, "none", << >>),
+  NP("B:defaults",        "get_defaults", "B", "ok", FALSE),
   [PA("A:a/ok,pc|nodef", "A", NoDefKW, << >>, "a", <<"ok", "pc">>) EXCEPT !.late = "fail"],   \* prints a's configuration WITHOUT defaults: shows which parse kwargs the sub-command parse really got
   PA("A:a/pc",            "A", DefKW, << >>, "a", <<"pc">>),
   PA("A:pc,help",         "A", DefKW, <<"pc", "help">>, "none", << >>),
@@ -75,6 +82,8 @@ QuickOps == {
   PA("B:pc,bad",          "B", DefKW, <<"pc", "bad">>, "none", << >>)
 }
 MoreOps == {
+  PA("A:shtab",           "A", DefKW, <<"shtab">>, "none", << >>),                \* leaves the ShtabResidue behind
+  EV("A", "v1"), EV("A", "absent"),                                             \* the default config file of A appears / disappears between calls
   PA("A:b/ok",            "A", DefKW, << >>, "b", <<"ok">>),
   PA("A:a/bad",           "A", DefKW, << >>, "a", <<"bad">>),
   PA("A:ok|nodef",        "A", NoDefKW, <<"ok">>, "none", << >>),
@@ -115,7 +124,11 @@ NoStaleRead == ~st.stale
 AlgIsRefOnFresh == Quiescent => \A o \in Ops : AlgOutcome(o, Res0(Roots, Names)) = RefOutcome(o)
 \* C09, design level.  On the pinned tree it holds outside the named deviation; with the repair it holds everywhere.
 HistoryIndependent ==
-  Quiescent => \A o \in Ops : (ClearOnError \/ ~PendingResidue(o, st.res)) => AlgOutcome(o, st.res) = RefOutcome(o)
+  Quiescent => \A o \in Ops : ((ClearOnError \/ ~PendingResidue(o, st.res)) /\ ~ShtabResidue(o, st.res)) => AlgOutcome(o, st.res) = RefOutcome(o)
+\* the second named deviation is exactly this wide: after --print_shtab=<shell> every parse_args on that root parser fails
+\* (and, on a parser with a class-typed default, every call that computes the defaults); no other parser is affected
+ShtabShape ==
+  Quiescent => \A o \in Ops : ShtabResidue(o, st.res) => (AlgOutcome(o, st.res) \in {"error", "exit2", "raise"} /\ AlgRun(o, st.res).res.shtab = st.res.shtab)
 \* the property itself, without the exception: violated on the pinned tree (MC_Context_strict.cfg; TLC's counterexample is the finding)
 HistoryIndependentStrict == Quiescent => \A o \in Ops : AlgOutcome(o, st.res) = RefOutcome(o)
 \* ... and the deviation is exactly as wide as recorded: a pending request changes the answer of precisely the calls that
@@ -130,7 +143,7 @@ PendingIsLocal == \A p \in Roots : st.res.pending[p] # "none" => st.res.args[p] 
 --------------------------------------------------------------------------------
 NameSeq == <<"A", "A.a", "A.b", "B">>
 ResKey(r) == r.pending["A"] \o "|" \o r.pending["B"] \o "|" \o r.args["A"] \o r.args["A.a"] \o r.args["A.b"] \o r.args["B"]
-             \o "|" \o (IF r.shtab["A"] THEN "1" ELSE "0") \o (IF r.shtab["B"] THEN "1" ELSE "0") \o "|" \o r.pk \o "|" \o r.sap \o "|" \o r.dk
+             \o "|" \o r.shtab["A"] \o "," \o r.shtab["B"] \o "|" \o r.dcf["A"] \o "," \o r.dcf["B"] \o "|" \o r.pk \o "|" \o r.sap \o "|" \o r.dk
 OpSeq == SetToSeq(Ops)
 EmitState ==
   (Emit /\ Quiescent) =>
